@@ -125,3 +125,35 @@ Proof.
   - apply bytes_okb_ok. vm_compute. reflexivity.
   - eexists. split; vm_compute; reflexivity.
 Qed.
+
+(* ---- the writers above are the source ----
+   Every writer of packet.go that the theorems of this file mention (enc_pcr, enc_pts_or_dts, enc_packet_header,
+   enc_af_extension, enc_adaptation_field, enc_packet / write_packet) is, for every argument, what go/gen (writegen.go)
+   translates from the CURRENT source of writePCR / writePTSOrDTS / writePacketHeader / writePacketAdaptationFieldExtension /
+   writePacketAdaptationField / writePacket into Gen/WriteGen.v (wf_sim, Proofs/WriteGenBase.v): the same items handed to
+   the BitsWriter in the same order (equal up to the bits a w-bit write ignores, hence the same bytes and the same
+   io.Writer calls), none through a w.Write whose result is discarded, the same returned count, the same error class,
+   a panic exactly where the model panics.  An edit of one of these Go functions regenerates Gen/WriteGen.v and this
+   theorem (Proofs/WriteGenEq.v) stops checking. *)
+Require Import Gen.Consts Gen.MuxGen Gen.WriteGen Proofs.WriteGenBase Proofs.WriteGenEq.
+Theorem C11_writers_are_source :
+  (forall cr, wf_sim (WriteGen.writePCR cr) (Ok (enc_pcr cr, C_pcrBytesSize))) /\
+  (forall flag cr, wf_sim (WriteGen.writePTSOrDTS flag cr) (Ok (enc_pts_or_dts flag cr, C_ptsOrDTSByteLength))) /\
+  (forall h, wf_sim (WriteGen.writePacketHeader h) (Ok (enc_packet_header h, C_mpegTsPacketHeaderSize))) /\
+  (forall afe, wf_sim (WriteGen.writePacketAdaptationFieldExtension afe) (enc_af_extension afe)) /\
+  (forall af, wf_sim (WriteGen.writePacketAdaptationField af) (enc_adaptation_field af)) /\
+  (forall p target, wf_sim (WriteGen.writePacket p target) (enc_packet_n p target)).
+Proof. exact packet_writers_are_source. Qed.
+Print Assumptions C11_writers_are_source.
+Theorem C11_write_packet_is_source : forall p target bs, write_packet p target = Ok bs ->
+  exists l, WriteGen.writePacket p target = (l, Some (target, ENil)) /\
+            bytes_of_items (map snd l) = bs /\
+            (forall items, enc_packet p target = Ok items -> chunks_of (map snd l) = chunks_of items) /\
+            nd l = true.
+Proof. exact write_packet_is_source. Qed.
+Print Assumptions C11_write_packet_is_source.
+(* the translated writePacket runs: on the example packet it returns 188 and nil and hands over the model's bytes *)
+Example C11_writers_are_source_inhabited :
+  exists l bs, WriteGen.writePacket ex_packet 188 = (l, Some (188, ENil)) /\
+               write_packet ex_packet 188 = Ok bs /\ bytes_of_items (map snd l) = bs /\ length bs = 188%nat.
+Proof. do 2 eexists. repeat split; vm_compute; reflexivity. Qed.
